@@ -1,6 +1,7 @@
 //! Native battery for C14 (state-metadata framing and rebasing) and C17 (IOTA DID normal form).
 use crate::*;
 use identity_core::common::{Object, OneOrSet, Url};
+use identity_core::convert::ToJson;
 use identity_did::{CoreDID, DID};
 use identity_document::service::Service;
 use identity_document::verifiable::JwsVerificationOptions;
@@ -144,6 +145,48 @@ pub fn state_metadata(_cex: &Value) -> Result<String, String> {
     if big.pack().is_ok() {
       log.push("document larger than 65535 bytes packed".into());
     }
+    // the exact boundary of the 16-bit length: bodies of 65535 bytes round-trip, 65536 and 65537 are refused
+    {
+      let with_pad = |n: usize| {
+        let mut d = doc.clone();
+        d.insert_service(
+          Service::builder(Object::new())
+            .id(did_self.to_url().join("#pad").unwrap())
+            .type_("T")
+            .service_endpoint(Url::parse(format!("https://example.com/{}", "x".repeat(n))).unwrap())
+            .build()
+            .unwrap(),
+        )
+        .unwrap();
+        d
+      };
+      if let Ok(p0) = with_pad(1000).pack() {
+        let base = p0.len() - 7 - 1000; // body length without padding
+        for target_len in [65534usize, 65535, 65536, 65537] {
+          let d = with_pad(target_len - base);
+          match d.clone().pack() {
+            Ok(p) => {
+              let body = p.len() - 7;
+              if body != target_len {
+                log.push(format!("size probe produced a body of {body} bytes, wanted {target_len}"));
+              } else if target_len > 65535 {
+                log.push(format!("document with a {target_len}-byte body packed (length prefix {:?})", &p[5..7]));
+              } else {
+                match StateMetadataDocument::unpack(&p).and_then(|x| x.into_iota_document(&did_self)) {
+                  Ok(back) if back.core_document() == d.core_document() => {}
+                  _ => log.push(format!("document with a {target_len}-byte body does not unpack to itself")),
+                }
+              }
+            }
+            Err(_) => {
+              if target_len <= 65535 {
+                log.push(format!("document with a {target_len}-byte body refused"));
+              }
+            }
+          }
+        }
+      }
+    }
     // rebasing
     let target = IotaDID::parse(TARGET).unwrap();
     match StateMetadataDocument::unpack(&packed).and_then(|d| d.into_iota_document(&target)) {
@@ -172,6 +215,51 @@ pub fn state_metadata(_cex: &Value) -> Result<String, String> {
         }
       }
       Err(e) => log.push(format!("rebasing failed: {e}")),
+    }
+    // every combination of {self, foreign} method id x {self, foreign} controller, embedded and general-purpose, rebased
+    {
+      let mk = |id_did: &IotaDID, ctrl: &IotaDID, frag: &str| {
+        VerificationMethod::builder(Default::default())
+          .id(id_did.to_url().join(frag).unwrap())
+          .controller(ctrl.clone().into())
+          .type_(MethodType::ED25519_VERIFICATION_KEY_2018)
+          .data(MethodData::new_multibase(b"some-public-key-bytes-0123456789"))
+          .build()
+          .unwrap()
+      };
+      let mut d = IotaDocument::new_with_id(did_self.clone());
+      let combos = [(true, true, "#ss"), (true, false, "#sf"), (false, true, "#fs"), (false, false, "#ff")];
+      for (i, (id_self, c_self, frag)) in combos.iter().enumerate() {
+        let m = mk(if *id_self { &did_self } else { &did_foreign }, if *c_self { &did_self } else { &did_foreign }, frag);
+        let scope = if i % 2 == 0 { MethodScope::VerificationMethod } else { MethodScope::authentication() };
+        d.insert_method(m, scope).unwrap();
+      }
+      match d.clone().pack().and_then(|p| StateMetadataDocument::unpack(&p)).and_then(|x| x.into_iota_document(&target)) {
+        Ok(r) => {
+          for (id_self, c_self, frag) in combos {
+            let want_id = if id_self { target.to_string() } else { FOREIGN.to_string() };
+            let want_c = if c_self { target.to_string() } else { FOREIGN.to_string() };
+            let q = format!("{want_id}{frag}");
+            match r.resolve_method(q.as_str(), None) {
+              Some(m) => {
+                if m.controller().to_string() != want_c {
+                  log.push(format!("[rebase] method {frag} (id {}, controller {}): controller after rebasing is {}, expected {want_c}", if id_self { "self" } else { "foreign" }, if c_self { "self" } else { "foreign" }, m.controller()));
+                }
+              }
+              None => log.push(format!("[rebase] method {frag} not found under {q} after rebasing")),
+            }
+          }
+          let text = r.core_document().to_json().unwrap_or_default();
+          if text.contains("did:0:0") || text.contains(SELF) {
+            log.push("[rebase] placeholder or the old DID survives rebasing".into());
+          }
+        }
+        Err(e) => log.push(format!("[rebase] rebasing the combination document failed: {e}")),
+      }
+      match d.clone().pack().and_then(|p| StateMetadataDocument::unpack(&p)).and_then(|x| x.into_iota_document(&did_self)) {
+        Ok(r) if r.core_document() == d.core_document() => {}
+        _ => log.push("[rebase] combination document does not round-trip for its own DID".into()),
+      }
     }
     // a non-IOTA id in the packed form must be refused on unpack
     let text = String::from_utf8_lossy(&packed[7..]).replace(FOREIGN, "did:example:abc");
